@@ -26,6 +26,7 @@ template <size_t N> int pick_op(Rng& g, const W (&t)[N]) {
 uint64_t small_cap(Rng& g) { switch (g.below(10)) { case 0: return 0; case 1: return g.range(23, 25); case 2: return g.chance(1, 8) ? g.range(255, 300) : g.below(9); default: return g.below(9); } }
 }  // namespace
 
+static bool marathon_refs = false;
 void gen_hist_ops(Rng& g, Rng& fr, const std::string& prop, unsigned nops, bool with_faults, J& ops) {
   // an abstract view of the pool keeps short plans meaningful (only ask for a push when an array is likely there)
   int deep_follow = 0;
@@ -46,6 +47,7 @@ void gen_hist_ops(Rng& g, Rng& fr, const std::string& prop, unsigned nops, bool 
       break;
     }
     if (nops <= 40 && g.chance(1, prop == "C12" || prop == "C03" ? 2500 : 20000)) { HOp b; b.code = OP_BIG; b.a = prop == "C03" ? 3 : prop == "C12" ? g.below(3) : g.below(4); b.b = g.next() >> 8; b.c = g.next() >> 8; ops.push(hop_to_json(b)); }
+    if (marathon_refs && i == 0 && (prop == "C04" || prop == "C13") && g.chance(1, 150000)) { HOp b; b.code = OP_BIG; b.a = 4; b.c = g.next() >> 8; ops.push(hop_to_json(b)); }   // ~2^33 library calls: thorough tier only
     if (deep_follow > 0 && i + 1 < nops + 3) { static const int F[] = {OP_SIZE, OP_SERIALIZE, OP_SERIALIZE_ALLOC, OP_DESCRIBE, OP_COPY}; code = F[g.below(5)]; }
     HOp o; o.code = code; o.a = g.next() >> 8; o.b = g.next() >> 8; o.c = g.next() >> 8; o.d = g.below(16);
     switch (code) {
@@ -94,8 +96,10 @@ J gen_hist(const std::string& prop, uint64_t run_seed, const std::string& tier) 
   bool long_run = kn.chance(1, 12);
   unsigned nops = long_run ? (unsigned)kn.range(100, tier == "thorough" ? 2500 : 500) : (unsigned)kn.range(2, 14);
   bool with_faults = kn.chance(1, 2);
+  marathon_refs = tier == "thorough";
   J ops = J::arr(); gen_hist_ops(g, fr, prop, nops, with_faults, ops);
   plan.set("ops", ops);
+  for (size_t i = 0; i < ops.size(); i++) if (ops[i].iu(0) == OP_BIG && ops[i].iu(1) % 5 == 4) { J k2 = plan.at("knobs"); k2.set("watchdog", 1800); plan.set("knobs", k2); }   // 2^33 calls take a while
   J drop = J::arr(); for (int i = 0; i < 40; i++) drop.push(g.below(1000)); plan.set("drop", drop);
   return plan;
 }
